@@ -9,12 +9,29 @@ import json
 import sys
 
 
-def build_function(n, doc, typed):
+PHRASES = {1: "It defaults to 5.", 2: "Default value is 7.", 3: "Default: 9."}
+
+
+def describe(k, phr):
+    """the description of parameter k; `phr` = the default-announcing phrases it contains, in textual order"""
+    return "the p{}. ".format(k) + " On TPU: ".join(PHRASES[x] for x in (phr or ())) if phr else "the p{}".format(k)
+
+
+def build_docstring(style, phr):
+    d = describe(1, phr)
+    if style == "rest":
+        return "\nThe summary\n\n:param p1: {}\n:type p1: ```int```\n".format(d)
+    if style == "google":
+        return "\nThe summary\n\nArgs:\n  p1 (int): {}\n".format(d)
+    return "\nThe summary\n\nParameters\n----------\np1 : int\n    {}\n".format(d)
+
+
+def build_function(n, doc, typed, phr=None):
     names = ["p{}".format(k) for k in range(1, n + 1)]
     sig = ", ".join("{}: int = {}".format(x, k) if typed else x for k, x in enumerate(names))
     lines = ["def f({}):".format(sig), '    """', "    The summary", ""]
     for k in doc:
-        lines.append("    :param p{0}: the p{0}".format(k))
+        lines.append("    :param p{0}: {1}".format(k, describe(k, phr)))
         if not typed:
             lines.append("    :type p{0}: ```int```".format(k))
         lines.append("")
@@ -22,10 +39,10 @@ def build_function(n, doc, typed):
     return "\n".join(lines)
 
 
-def build_class(n, doc):
+def build_class(n, doc, phr=None):
     lines = ["class C(object):", '    """', "    The summary", ""]
     for k in doc:
-        lines += ["    :cvar p{0}: the p{0}".format(k), ""]
+        lines += ["    :cvar p{0}: {1}".format(k, describe(k, phr)), ""]
     lines += ['    """', ""]
     for k in range(1, n + 1):
         lines.append("    p{0}: int = {0}".format(k))
@@ -40,12 +57,12 @@ def run_job(job):
     if api == "function.parse":
         import cdd.function.parse
 
-        fn = ast.parse(build_function(inp["n"], inp["doc"], inp.get("typed", False))).body[0]
+        fn = ast.parse(build_function(inp["n"], inp["doc"], inp.get("typed", False), inp.get("phr"))).body[0]
         return json.dumps(real.plain(cdd.function.parse.function(fn)))
     if api == "class.parse":
         import cdd.class_.parse
 
-        cls = ast.parse(build_class(inp["n"], inp["doc"])).body[0]
+        cls = ast.parse(build_class(inp["n"], inp["doc"], inp.get("phr"))).body[0]
         return json.dumps(real.plain(cdd.class_.parse.class_(cls)))
     if api.startswith("emit."):
         import copy
@@ -96,7 +113,8 @@ def run_job(job):
     if api == "docstring.parse":
         import cdd.docstring.parse
 
-        return json.dumps(real.plain(cdd.docstring.parse.docstring(inp["text"])))
+        text = inp["text"] if "text" in inp else build_docstring(inp["style"], inp["phr"])
+        return json.dumps(real.plain(cdd.docstring.parse.docstring(text)))
     raise KeyError(api)
 
 
